@@ -17,6 +17,7 @@ CONSTANTS
   KeepTasks = FALSE
   KernMode = "free"
   GenMode = FALSE
+  MaxIntr = 0
   InitBits = {0, 1}
 INVARIANTS NoViolation NumObjsOK ActiveRegistered HandledRegistered EpollSync PollArrayOK ExpiredOK TasksOK EventsOK TimerFdOK
 VIEW View
